@@ -1,6 +1,7 @@
 import PpciVerif.Proofs.RelaxObj
 import PpciVerif.Proofs.RelaxInsn
 import PpciVerif.Proofs.RelaxScan
+import PpciVerif.Proofs.RelaxRange
 import PpciVerif.Model.RelaxLink
 import PpciVerif.Gen.RelaxTab
 /-!
@@ -199,6 +200,27 @@ theorem same_section_stays_in_range_partial (hs : List Hole) (a a' p t : Nat) (h
   · have m1 := phi_mono hf hp c
     have m2 := phi_nonexpanding hs c
     omega
+
+/-- Site and target in two different sections of ONE image (`olds` = the image's sections before, an
+    ascending non-overlapping chain; `news` = after hole punching; `sn₁`, `sn₂` = sections `i < j` after the
+    address shift, as delivered by `image_sections_do_not_overlap`): in both directions a reference that was
+    in reach of C.J stays in reach. -/
+theorem same_image_stays_in_range_partial (m : HoleMap) (hok : HolesOK m) {olds news : List Section} {cur : Nat}
+    (hrel : All2 (fun so sn => sn.name = so.name ∧ sn.address = so.address ∧
+      sn.data.length + change m so.name = so.data.length) olds news) (hc : Chain cur olds)
+    {i j : Nat} (hij : i < j) {so₁ so₂ sn₁ sn₂ : Section}
+    (ho₁ : olds[i]? = some so₁) (ho₂ : olds[j]? = some so₂)
+    (hn₁ : (shiftRes m 0 news)[i]? = some sn₁) (hn₂ : (shiftRes m 0 news)[j]? = some sn₂)
+    (hw₁ : holesWithin (holesOf m so₁.name) so₁.data.length)
+    {p t : Nat} (hp : p ≤ so₁.data.length)
+    (hsp : strictlyInside (holesOf m so₁.name) p = false) (hst : strictlyInside (holesOf m so₂.name) t = false) :
+    (fits12 (((so₂.address + t : Nat) : Int) - ((so₁.address + p : Nat) : Int)) →
+      fits12 (((sn₂.address + phi (holesOf m so₂.name) t : Nat) : Int) - ((sn₁.address + phi (holesOf m so₁.name) p : Nat) : Int))) ∧
+    (fits12 (((so₁.address + p : Nat) : Int) - ((so₂.address + t : Nat) : Int)) →
+      fits12 (((sn₁.address + phi (holesOf m so₁.name) p : Nat) : Int) - ((sn₂.address + phi (holesOf m so₂.name) t : Nat) : Int))) := by
+  obtain ⟨a, b, c⟩ := two_sections_distance m hok hrel hc hij ho₁ ho₂ hn₁ hn₂ hw₁ hp hsp hst
+  unfold fits12
+  constructor <;> intro h <;> omega
 
 /-- the full statement (any two sections, any placement) — NOT a theorem of the code: -/
 def stays_in_range_full : Prop :=
